@@ -664,10 +664,70 @@ func (e *Exec) opaqueMethod(o Opaque, recv Iface, method string, args []Value) (
 		if v, ok := e.hashMethod(o, method, args); ok {
 			return v, true
 		}
+	case "configurator":
+		// module.Configurator: the gRPC servers accept any registration; migrations are recorded
+		switch method {
+		case "MsgServer", "QueryServer":
+			return Iface{Typ: storeMarkerType, Val: Opaque{Kind: "grpcserver"}}, true
+		case "RegisterMigration":
+			mod, ok := strView(args[0].(Str)).concrete()
+			from, ok2 := args[1].(*smt.Term)
+			if !ok || !ok2 || !from.IsConst() {
+				panic(engineErr("RegisterMigration with a non-constant module name or version"))
+			}
+			if from.Val == 0 {
+				return e.newErr("module migration versions should start at 1"), true
+			}
+			ev := fmt.Sprintf("migration:%s:%d", mod, from.Val)
+			for _, x := range e.path.events {
+				if x == ev {
+					return e.newErr("another migration for this module and version is already registered"), true
+				}
+			}
+			e.path.events = append(e.path.events, ev)
+			e.Notes["stub module.Configurator: RegisterMigration records (module, fromVersion) and refuses version 0 and duplicates, as the SDK configurator does; gRPC registration is a no-op"] = true
+			return nilErr(), true
+		}
+	case "grpcserver":
+		if method == "RegisterService" {
+			return nil, true
+		}
 	case "stubobj":
 		panic(engineErr("method %s on opaque stub object %v", method, o.Data))
 	}
 	return nil, false
+}
+
+func init() {
+	extraIntrinsics["vConfigurator"] = func(e *Exec, fn *ssa.Function, args []Value) Value {
+		return Iface{Typ: storeMarkerType, Val: Opaque{Kind: "configurator"}}
+	}
+	// vMigrationRegistered(module, fromVersion): did RegisterServices register that migration?
+	extraIntrinsics["vMigrationRegistered"] = func(e *Exec, fn *ssa.Function, args []Value) Value {
+		mod := e.mustConstString(args[0], "module name")
+		from, ok := args[1].(*smt.Term)
+		if !ok || !from.IsConst() {
+			panic(engineErr("vMigrationRegistered: version must be concrete"))
+		}
+		ev := fmt.Sprintf("migration:%s:%d", mod, from.Val)
+		for _, x := range e.path.events {
+			if x == ev {
+				return smt.True
+			}
+		}
+		return smt.False
+	}
+	// vMigrationCount(module): number of migrations registered for the module
+	extraIntrinsics["vMigrationCount"] = func(e *Exec, fn *ssa.Function, args []Value) Value {
+		mod := e.mustConstString(args[0], "module name")
+		n := 0
+		for _, x := range e.path.events {
+			if strings.HasPrefix(x, "migration:"+mod+":") {
+				n++
+			}
+		}
+		return c64(n)
+	}
 }
 
 func (e *Exec) callStubByName(name string, recv Value, args []Value, c *ssa.CallCommon) Value {
